@@ -358,7 +358,13 @@ func (s *scheduler) send(ch *vchan, v value) {
 			}
 			continue
 		}
-		s.block(func() bool { return len(ch.buf) < ch.cap || ch.closed }, fmt.Sprintf("send on chan %d", ch.id))
+		w := &sendWait{t: s.cur, v: copyVal(v)}
+		ch.sendq = append(ch.sendq, w)
+		s.block(func() bool { return w.done || ch.closed }, fmt.Sprintf("send on chan %d", ch.id))
+		if w.done {
+			return
+		}
+		w.dead = true
 	}
 }
 
@@ -366,10 +372,17 @@ func (s *scheduler) takeFromSendq(ch *vchan) (value, bool) {
 	for len(ch.sendq) > 0 {
 		w := ch.sendq[0]
 		ch.sendq = ch.sendq[1:]
-		if !w.done {
-			w.done = true
-			return w.v, true
+		if w.done || w.dead {
+			continue
 		}
+		if w.sel != nil {
+			if w.sel.chosen >= 0 {
+				continue // that select already completed through another case
+			}
+			w.sel.chosen = w.idx
+		}
+		w.done = true
+		return w.v, true
 	}
 	return nil, false
 }
@@ -378,6 +391,12 @@ func (s *scheduler) recvNow(ch *vchan) (value, bool) {
 	if len(ch.buf) > 0 {
 		v := ch.buf[0]
 		ch.buf = ch.buf[1:]
+		// Go runtime semantics: a receive from a full buffer immediately refills it from a parked sender
+		if ch.timer == nil {
+			if w, ok := s.takeFromSendq(ch); ok {
+				ch.buf = append(ch.buf, w)
+			}
+		}
 		return v, true
 	}
 	if v, ok := s.takeFromSendq(ch); ok {
@@ -404,9 +423,16 @@ func (s *scheduler) sendNow(ch *vchan, v value) {
 func (s *scheduler) closed(ch *vchan) {}
 
 func (s *scheduler) parkSelect(chans []*vchan, instr *ssa.Select) {
+	s.parkSelectSel(chans, instr, &selWait{chosen: -1})
+}
+
+func (s *scheduler) parkSelectSel(chans []*vchan, instr *ssa.Select, sel *selWait) {
 	i := s.i
 	fr := i.curFrame
 	cond := func() bool {
+		if sel.chosen >= 0 {
+			return true
+		}
 		for k, st := range instr.States {
 			ch := chans[k]
 			if st.Dir == types.RecvOnly {
